@@ -112,6 +112,11 @@ impl<T> ParallelSliceMut<T> for [T] {
     }
 }
 impl<T> Array<T> {
+    /// src/array.rs:452 `row_slices` (the real one builds the slices with from_raw_parts; same rows)
+    pub fn row_slices(&self) -> impl Iterator<Item = &[T]> {
+        let row_len = self.row_len();
+        (0..self.row_count()).map(move |i| &self.data[i * row_len..(i + 1) * row_len])
+    }
     /// src/algorithm/map.rs:160
     pub fn is_map(&self) -> bool {
         self.meta.map_keys.as_ref().is_some()
